@@ -51,6 +51,7 @@ type FuncContract struct {
 	Flags    map[string]bool
 	Binds    []Bind
 	Callsite []CallsiteClause
+	Lets     []Clause // function-level definitions evaluated at entry: Label = name
 }
 
 type CallsiteClause struct {
@@ -112,7 +113,7 @@ var (
 )
 
 var clauseKeywords = map[string]bool{"func": true, "spec": true, "lemma": true, "property": true, "ghost": true, "requires": true,
-	"ensures": true, "loop": true, "invariant": true, "decreases": true, "flags": true, "bind": true, "callsite": true}
+	"ensures": true, "loop": true, "invariant": true, "decreases": true, "flags": true, "bind": true, "callsite": true, "let": true}
 
 func parseParams(s string) ([]Param, error) {
 	s = strings.TrimSpace(s)
@@ -334,6 +335,16 @@ func (cs *Contracts) ParseFile(path, pkgName string) error {
 				return err
 			}
 			curLoop.Decreases = &c
+		case "let":
+			k := strings.Index(rest, "=")
+			if curF == nil || k < 0 {
+				return fail(l, "bad let %q", t)
+			}
+			e, err := ParseExpr(strings.TrimSpace(rest[k+1:]))
+			if err != nil {
+				return fail(l, "%v", err)
+			}
+			curF.Lets = append(curF.Lets, Clause{Label: strings.TrimSpace(rest[:k]), Expr: e, Text: rest, Line: l.line})
 		case "bind":
 			m := reBind.FindStringSubmatch(t)
 			if m == nil || curF == nil {
@@ -394,9 +405,10 @@ type (
 		Args []Expr
 	}
 	EQuant struct {
-		Forall bool
-		Vars   []Param
-		Body   Expr
+		Forall   bool
+		Vars     []Param
+		Body     Expr
+		Triggers [][]Expr
 	}
 	ECond struct{ C, A, B Expr }
 	ELet  struct {
@@ -576,8 +588,21 @@ func (p *lexer) expr() Expr {
 			break
 		}
 		p.expectOp("::")
+		var trigs [][]Expr
+		for p.isOp("{") {
+			p.pos++
+			var tg []Expr
+			for !p.isOp("}") {
+				tg = append(tg, p.expr())
+				if p.isOp(",") {
+					p.pos++
+				}
+			}
+			p.expectOp("}")
+			trigs = append(trigs, tg)
+		}
 		body := p.expr()
-		return EQuant{Forall: fa, Vars: vars, Body: body}
+		return EQuant{Forall: fa, Vars: vars, Body: body, Triggers: trigs}
 	}
 	if p.isID("let") {
 		p.pos++
